@@ -207,10 +207,20 @@ class C01Monitor(jobsim.Monitor):
                     self.log.count("kink-discarded")
                     self.log.count("kink-discarded:inconsistent-step-sizes")
                     continue
+                # a switching point exactly at the state (neutral loading: the first iterate of a
+                # substep after plastic flow sits on the yield surface at every plastic point): the
+                # gap between the one-sided differences is a + b h with a > 0, the tangent may take
+                # either branch per point, so any K d within the jump a of the central difference is
+                # a valid selection
+                jump = max(0.0, (10.0 * kappa[1e-6] - kappa[1e-5]) / 9.0)
+                if jump > 1e-8 * whole and err <= 2.0 * jump:
+                    self.log.count("kink-discarded")
+                    self.log.count("kink-discarded:switch-at-state")
+                    continue
                 where = int(np.abs(Kd - g).argmax())
                 self.V(
                     "fd-tangent",
-                    f"{label} K.d differs from the central difference of fun_items by {err:.3e} (|K d|+|g| = {scale:.3e}, direction {dname}, h={h0:g}, worst row {where}, substep ({c['step']},{c['substep']}) iteration {c['iter']})",
+                    f"{label} K.d differs from the central difference of fun_items by {err:.3e} (|K d|+|g| = {scale:.3e}, direction {dname}, h={h0:g}, worst row {where}, substep ({c['step']},{c['substep']}) iteration {c['iter']}; errors at h=1e-5 / 1e-6: {errs[1e-5]:.3e} / {errs[1e-6]:.3e}, one-sided gaps {kappa[1e-5]:.3e} / {kappa[1e-6]:.3e})",
                     site="+".join(sorted({s["type"] + (":" + s["umat"]["name"] if "umat" in s else "") for s in self.doc["items"]})),
                 )
         if self.nprobe % 2 == 1:
